@@ -22,3 +22,7 @@ VARIANTS = [
 ]
 
 VARIANTS.append(M('C11', 'revert-fix-ip-attribute', E(GT, "        self.ip = self.ip_address  # looked up by name with the other specifics\n", ""), rule='C11-ATTRS', key='::ip'))
+
+VARIANTS += [
+    M('C11', 'snapshot-stores-mtime', E(GT, "                            self.snapshot[path] = stat.st_ctime", "                            self.snapshot[path] = stat.st_mtime"), rule='C11-SNAPSHOT', key='snapshot'),
+]
